@@ -182,7 +182,7 @@ PROPERTY_INFO = {
     "C16": info("exploration",
                 GEN_RULE + "non-trivial = two worlds were compared and the verdict checked against the models; distinct = distinct operation lists",
                 ["eq_true", "eq_false"],
-                ["eq_true", "eq_false", "eq_false_same_content", "clone", "roundtrip_json"], crash="C16"),
+                ["eq_true", "eq_false", "eq_false_same_content", "eq_true_after_separate_histories", "clone", "roundtrip_json"], crash="C16"),
     "C17": info("fault_enumeration",
                 "for each seeded small history and target operation (remove, clear, Entry::add/remove, drop, clone, clone_from, ==, {:?}, serialize, deserialize, restore, extend), "
                 "a dry run counts the user callbacks of each kind; one evaluation = one complete run with a panic (or, for Serialize/Deserialize, also an Err) injected at one callback position, "
